@@ -145,3 +145,28 @@ pub fn vx_await<S>(f: SignalFut<S>) -> Result<Result<Result<S, ActorProcessingEr
     ensures final(log).s == old(log).s.push(Effect::Spawn),
 )]
 pub fn spawn_named(erased: ()) -> JoinHandle<()> { unimplemented!() }
+
+verus! {
+#[verifier::external_body] pub struct ThreadLocalActorSpawner { _p: u8 }
+#[verifier::external_body] pub struct SpawnerErr { _p: u8 }
+/// R8: `Box::new(move || { async move { .. } })`: the start routine handed to the spawner thread runs later, on that thread; its
+/// text is erased here (pre_start, mark_running and the processing loop live in it)
+#[verifier::external_body] pub struct Builder { _p: u8 }
+}
+#[verus_verify(external_body)]
+pub fn vx_builder(erased: ()) -> Builder { unimplemented!() }
+#[verus_verify]
+impl ThreadLocalActorSpawner {
+    /// hands the start routine to the spawner thread (logged as the spawn)
+    #[verus_verify(external_body)]
+    #[verus_spec(r =>
+        with Tracked(log): Tracked<&mut EffectLog>
+        ensures final(log).s == old(log).s.push(Effect::Spawn))]
+    pub fn spawn(&self, b: Builder, name: Option<String>) -> Result<JoinHandle<()>, SpawnerErr> { unimplemented!() }
+}
+verus! {
+impl SpawnerErr {
+    #[verifier::external_body]
+    pub fn into(self) -> ActorProcessingErr { unimplemented!() }
+}
+}
